@@ -54,6 +54,10 @@ func main() {
 		fmt.Println(strings.Join(ids, " "))
 	case "manifest":
 		writeManifest()
+	case "dbg":
+		if w, err := LoadWorld("quick", false, nil); err == nil {
+			debugC10(w)
+		}
 	case "funcs":
 		if w, err := LoadWorld("quick", false, nil); err == nil && len(os.Args) > 2 {
 			debugList(w, os.Args[2])
